@@ -117,11 +117,12 @@ fn opt_str_hex(s: &Option<String>) -> String {
     }
 }
 
+/// the crate's value as a term (read back through the crate's own `From` conversions where it has them)
 pub fn from_crate(a: &AVP) -> TAvp {
     let k = |n: &str, v: Vec<String>| TAvp::new(n, v);
     match a {
         AVP::MessageType(x) => k("MessageType", vec![format!("{:?}", x)]),
-        AVP::RandomVector(x) => k("RandomVector", vec![hex(&x.value)]),
+        AVP::RandomVector(x) => k("RandomVector", vec![hex(&<[u8; 4]>::from(x.clone()))]),
         AVP::ResultCode(x) => {
             let code: u16 = x.code.into();
             let (et, msg) = match &x.error {
@@ -133,40 +134,40 @@ pub fn from_crate(a: &AVP) -> TAvp {
         AVP::ProtocolVersion(x) => k("ProtocolVersion", vec![x.version.to_string(), x.revision.to_string()]),
         AVP::FramingCapabilities(x) => k("FramingCapabilities", vec![debug_word(x)]),
         AVP::BearerCapabilities(x) => k("BearerCapabilities", vec![debug_word(x)]),
-        AVP::TieBreaker(x) => k("TieBreaker", vec![x.value.to_string()]),
-        AVP::FirmwareRevision(x) => k("FirmwareRevision", vec![x.value.to_string()]),
-        AVP::HostName(x) => k("HostName", vec![hex(&x.value)]),
-        AVP::VendorName(x) => k("VendorName", vec![hex(x.value.as_bytes())]),
-        AVP::AssignedTunnelId(x) => k("AssignedTunnelId", vec![x.value.to_string()]),
-        AVP::ReceiveWindowSize(x) => k("ReceiveWindowSize", vec![x.value.to_string()]),
-        AVP::Challenge(x) => k("Challenge", vec![hex(&x.value)]),
-        AVP::ChallengeResponse(x) => k("ChallengeResponse", vec![hex(&x.value)]),
+        AVP::TieBreaker(x) => k("TieBreaker", vec![u64::from(x.clone()).to_string()]),
+        AVP::FirmwareRevision(x) => k("FirmwareRevision", vec![u16::from(x.clone()).to_string()]),
+        AVP::HostName(x) => k("HostName", vec![hex(&Vec::<u8>::from(x.clone()))]),
+        AVP::VendorName(x) => k("VendorName", vec![hex(String::from(x.clone()).as_bytes())]),
+        AVP::AssignedTunnelId(x) => k("AssignedTunnelId", vec![u16::from(x.clone()).to_string()]),
+        AVP::ReceiveWindowSize(x) => k("ReceiveWindowSize", vec![u16::from(x.clone()).to_string()]),
+        AVP::Challenge(x) => k("Challenge", vec![hex(&Vec::<u8>::from(x.clone()))]),
+        AVP::ChallengeResponse(x) => k("ChallengeResponse", vec![hex(&<[u8; 16]>::from(x.clone()))]),
         AVP::Q931CauseCode(x) => k(
             "Q931CauseCode",
             vec![x.cause_code.to_string(), x.cause_msg.to_string(), opt_str_hex(&x.advisory)],
         ),
-        AVP::AssignedSessionId(x) => k("AssignedSessionId", vec![x.value.to_string()]),
-        AVP::CallSerialNumber(x) => k("CallSerialNumber", vec![x.value.to_string()]),
-        AVP::MinimumBps(x) => k("MinimumBps", vec![x.value.to_string()]),
-        AVP::MaximumBps(x) => k("MaximumBps", vec![x.value.to_string()]),
+        AVP::AssignedSessionId(x) => k("AssignedSessionId", vec![u16::from(x.clone()).to_string()]),
+        AVP::CallSerialNumber(x) => k("CallSerialNumber", vec![u32::from(x.clone()).to_string()]),
+        AVP::MinimumBps(x) => k("MinimumBps", vec![u32::from(x.clone()).to_string()]),
+        AVP::MaximumBps(x) => k("MaximumBps", vec![u32::from(x.clone()).to_string()]),
         AVP::BearerType(x) => k("BearerType", vec![debug_word(x)]),
         AVP::FramingType(x) => k("FramingType", vec![debug_word(x)]),
-        AVP::CalledNumber(x) => k("CalledNumber", vec![hex(x.value.as_bytes())]),
-        AVP::CallingNumber(x) => k("CallingNumber", vec![hex(x.value.as_bytes())]),
-        AVP::SubAddress(x) => k("SubAddress", vec![hex(x.value.as_bytes())]),
-        AVP::TxConnectSpeed(x) => k("TxConnectSpeed", vec![x.value.to_string()]),
-        AVP::RxConnectSpeed(x) => k("RxConnectSpeed", vec![x.value.to_string()]),
-        AVP::PhysicalChannelId(x) => k("PhysicalChannelId", vec![hex(&x.value)]),
-        AVP::PrivateGroupId(x) => k("PrivateGroupId", vec![hex(&x.value)]),
+        AVP::CalledNumber(x) => k("CalledNumber", vec![hex(String::from(x.clone()).as_bytes())]),
+        AVP::CallingNumber(x) => k("CallingNumber", vec![hex(String::from(x.clone()).as_bytes())]),
+        AVP::SubAddress(x) => k("SubAddress", vec![hex(String::from(x.clone()).as_bytes())]),
+        AVP::TxConnectSpeed(x) => k("TxConnectSpeed", vec![u32::from(x.clone()).to_string()]),
+        AVP::RxConnectSpeed(x) => k("RxConnectSpeed", vec![u32::from(x.clone()).to_string()]),
+        AVP::PhysicalChannelId(x) => k("PhysicalChannelId", vec![hex(&<[u8; 4]>::from(x.clone()))]),
+        AVP::PrivateGroupId(x) => k("PrivateGroupId", vec![hex(&Vec::<u8>::from(x.clone()))]),
         AVP::SequencingRequired(_) => k("SequencingRequired", vec![]),
-        AVP::InitialReceivedLcpConfReq(x) => k("InitialReceivedLcpConfReq", vec![hex(&x.value)]),
-        AVP::LastSentLcpConfReq(x) => k("LastSentLcpConfReq", vec![hex(&x.value)]),
-        AVP::LastReceivedLcpConfReq(x) => k("LastReceivedLcpConfReq", vec![hex(&x.value)]),
+        AVP::InitialReceivedLcpConfReq(x) => k("InitialReceivedLcpConfReq", vec![hex(&Vec::<u8>::from(x.clone()))]),
+        AVP::LastSentLcpConfReq(x) => k("LastSentLcpConfReq", vec![hex(&Vec::<u8>::from(x.clone()))]),
+        AVP::LastReceivedLcpConfReq(x) => k("LastReceivedLcpConfReq", vec![hex(&Vec::<u8>::from(x.clone()))]),
         AVP::ProxyAuthenType(x) => k("ProxyAuthenType", vec![format!("{:?}", x)]),
-        AVP::ProxyAuthenName(x) => k("ProxyAuthenName", vec![hex(&x.value)]),
-        AVP::ProxyAuthenChallenge(x) => k("ProxyAuthenChallenge", vec![hex(&x.value)]),
-        AVP::ProxyAuthenId(x) => k("ProxyAuthenId", vec![x.value.to_string()]),
-        AVP::ProxyAuthenResponse(x) => k("ProxyAuthenResponse", vec![hex(&x.value)]),
+        AVP::ProxyAuthenName(x) => k("ProxyAuthenName", vec![hex(&Vec::<u8>::from(x.clone()))]),
+        AVP::ProxyAuthenChallenge(x) => k("ProxyAuthenChallenge", vec![hex(&Vec::<u8>::from(x.clone()))]),
+        AVP::ProxyAuthenId(x) => k("ProxyAuthenId", vec![u8::from(x.clone()).to_string()]),
+        AVP::ProxyAuthenResponse(x) => k("ProxyAuthenResponse", vec![hex(&Vec::<u8>::from(x.clone()))]),
         AVP::CallErrors(x) => k(
             "CallErrors",
             vec![
@@ -199,7 +200,8 @@ fn arr<const N: usize>(s: &str) -> Option<[u8; N]> {
     unhex(s)?.try_into().ok()
 }
 
-/// Build the crate's value from a term. `None` when the term does not denote a constructible value
+/// Build the crate's value from a term (through the crate's own `From` conversions where it has them, so that
+/// this glue is inside the correspondence as well). `None` when the term does not denote a constructible value
 /// (unknown kind, wrong arity, number out of range, a string field that is not UTF-8).
 pub fn to_crate(t: &TAvp) -> Option<AVP> {
     let a = &t.args;
@@ -212,7 +214,7 @@ pub fn to_crate(t: &TAvp) -> Option<AVP> {
         }
         "RandomVector" => {
             need(1)?;
-            AVP::RandomVector(types::RandomVector { value: arr::<4>(&a[0])? })
+            AVP::RandomVector(types::RandomVector::from(arr::<4>(&a[0])?))
         }
         "ResultCode" => {
             need(3)?;
@@ -251,95 +253,95 @@ pub fn to_crate(t: &TAvp) -> Option<AVP> {
         }
         "TieBreaker" => {
             need(1)?;
-            AVP::TieBreaker(types::TieBreaker { value: a[0].parse().ok()? })
+            AVP::TieBreaker(types::TieBreaker::from(a[0].parse::<u64>().ok()?))
         }
         "FirmwareRevision" => {
             need(1)?;
-            AVP::FirmwareRevision(types::FirmwareRevision { value: a[0].parse().ok()? })
+            AVP::FirmwareRevision(types::FirmwareRevision::from(a[0].parse::<u16>().ok()?))
         }
         "AssignedTunnelId" => {
             need(1)?;
-            AVP::AssignedTunnelId(types::AssignedTunnelId { value: a[0].parse().ok()? })
+            AVP::AssignedTunnelId(types::AssignedTunnelId::from(a[0].parse::<u16>().ok()?))
         }
         "ReceiveWindowSize" => {
             need(1)?;
-            AVP::ReceiveWindowSize(types::ReceiveWindowSize { value: a[0].parse().ok()? })
+            AVP::ReceiveWindowSize(types::ReceiveWindowSize::from(a[0].parse::<u16>().ok()?))
         }
         "AssignedSessionId" => {
             need(1)?;
-            AVP::AssignedSessionId(types::AssignedSessionId { value: a[0].parse().ok()? })
+            AVP::AssignedSessionId(types::AssignedSessionId::from(a[0].parse::<u16>().ok()?))
         }
         "CallSerialNumber" => {
             need(1)?;
-            AVP::CallSerialNumber(types::CallSerialNumber { value: a[0].parse().ok()? })
+            AVP::CallSerialNumber(types::CallSerialNumber::from(a[0].parse::<u32>().ok()?))
         }
         "MinimumBps" => {
             need(1)?;
-            AVP::MinimumBps(types::MinimumBps { value: a[0].parse().ok()? })
+            AVP::MinimumBps(types::MinimumBps::from(a[0].parse::<u32>().ok()?))
         }
         "MaximumBps" => {
             need(1)?;
-            AVP::MaximumBps(types::MaximumBps { value: a[0].parse().ok()? })
+            AVP::MaximumBps(types::MaximumBps::from(a[0].parse::<u32>().ok()?))
         }
         "TxConnectSpeed" => {
             need(1)?;
-            AVP::TxConnectSpeed(types::TxConnectSpeed { value: a[0].parse().ok()? })
+            AVP::TxConnectSpeed(types::TxConnectSpeed::from(a[0].parse::<u32>().ok()?))
         }
         "RxConnectSpeed" => {
             need(1)?;
-            AVP::RxConnectSpeed(types::RxConnectSpeed { value: a[0].parse().ok()? })
+            AVP::RxConnectSpeed(types::RxConnectSpeed::from(a[0].parse::<u32>().ok()?))
         }
         "HostName" => {
             need(1)?;
-            AVP::HostName(types::HostName { value: unhex(&a[0])? })
+            AVP::HostName(types::HostName::from(unhex(&a[0])?))
         }
         "Challenge" => {
             need(1)?;
-            AVP::Challenge(types::Challenge { value: unhex(&a[0])? })
+            AVP::Challenge(types::Challenge::from(unhex(&a[0])?))
         }
         "InitialReceivedLcpConfReq" => {
             need(1)?;
-            AVP::InitialReceivedLcpConfReq(types::InitialReceivedLcpConfReq { value: unhex(&a[0])? })
+            AVP::InitialReceivedLcpConfReq(types::InitialReceivedLcpConfReq::from(unhex(&a[0])?))
         }
         "LastSentLcpConfReq" => {
             need(1)?;
-            AVP::LastSentLcpConfReq(types::LastSentLcpConfReq { value: unhex(&a[0])? })
+            AVP::LastSentLcpConfReq(types::LastSentLcpConfReq::from(unhex(&a[0])?))
         }
         "LastReceivedLcpConfReq" => {
             need(1)?;
-            AVP::LastReceivedLcpConfReq(types::LastReceivedLcpConfReq { value: unhex(&a[0])? })
+            AVP::LastReceivedLcpConfReq(types::LastReceivedLcpConfReq::from(unhex(&a[0])?))
         }
         "ProxyAuthenName" => {
             need(1)?;
-            AVP::ProxyAuthenName(types::ProxyAuthenName { value: unhex(&a[0])? })
+            AVP::ProxyAuthenName(types::ProxyAuthenName::from(unhex(&a[0])?))
         }
         "ProxyAuthenChallenge" => {
             need(1)?;
-            AVP::ProxyAuthenChallenge(types::ProxyAuthenChallenge { value: unhex(&a[0])? })
+            AVP::ProxyAuthenChallenge(types::ProxyAuthenChallenge::from(unhex(&a[0])?))
         }
         "ProxyAuthenResponse" => {
             need(1)?;
-            AVP::ProxyAuthenResponse(types::ProxyAuthenResponse { value: unhex(&a[0])? })
+            AVP::ProxyAuthenResponse(types::ProxyAuthenResponse::from(unhex(&a[0])?))
         }
         "PrivateGroupId" => {
             need(1)?;
-            AVP::PrivateGroupId(types::PrivateGroupId { value: unhex(&a[0])? })
+            AVP::PrivateGroupId(types::PrivateGroupId::from(unhex(&a[0])?))
         }
         "VendorName" => {
             need(1)?;
-            AVP::VendorName(types::VendorName { value: utf8(&a[0])? })
+            AVP::VendorName(types::VendorName::from(utf8(&a[0])?))
         }
         "CalledNumber" => {
             need(1)?;
-            AVP::CalledNumber(types::CalledNumber { value: utf8(&a[0])? })
+            AVP::CalledNumber(types::CalledNumber::from(utf8(&a[0])?))
         }
         "CallingNumber" => {
             need(1)?;
-            AVP::CallingNumber(types::CallingNumber { value: utf8(&a[0])? })
+            AVP::CallingNumber(types::CallingNumber::from(utf8(&a[0])?))
         }
         "SubAddress" => {
             need(1)?;
-            AVP::SubAddress(types::SubAddress { value: utf8(&a[0])? })
+            AVP::SubAddress(types::SubAddress::from(utf8(&a[0])?))
         }
         "Q931CauseCode" => {
             need(3)?;
@@ -348,11 +350,11 @@ pub fn to_crate(t: &TAvp) -> Option<AVP> {
         }
         "ChallengeResponse" => {
             need(1)?;
-            AVP::ChallengeResponse(types::ChallengeResponse { value: arr::<16>(&a[0])? })
+            AVP::ChallengeResponse(types::ChallengeResponse::from(arr::<16>(&a[0])?))
         }
         "PhysicalChannelId" => {
             need(1)?;
-            AVP::PhysicalChannelId(types::PhysicalChannelId { value: arr::<4>(&a[0])? })
+            AVP::PhysicalChannelId(types::PhysicalChannelId::from(arr::<4>(&a[0])?))
         }
         "ProxyAuthenType" => {
             need(1)?;
@@ -360,7 +362,7 @@ pub fn to_crate(t: &TAvp) -> Option<AVP> {
         }
         "ProxyAuthenId" => {
             need(1)?;
-            AVP::ProxyAuthenId(types::ProxyAuthenId { value: a[0].parse().ok()? })
+            AVP::ProxyAuthenId(types::ProxyAuthenId::from(a[0].parse::<u8>().ok()?))
         }
         "CallErrors" => {
             need(6)?;
